@@ -28,7 +28,8 @@ var reflectKindPre = map[string][]string{
 // total reflect.Value methods used by the traversal (no precondition).
 var reflectTotal = map[string]bool{"reflect.(Value).Kind": true, "reflect.(Value).String": true, "reflect.(Value).IsValid": true, "reflect.ValueOf": true}
 
-// hasRecoverBarrier: fn defers a closure that calls recover() and, when it recovered, assigns a non-nil error to fn's error result.
+// hasRecoverBarrier: fn defers a closure (or, directly, a named function given the address of fn's error result) that calls
+// recover() itself and, when it recovered, assigns a non-nil error to fn's error result.
 func hasRecoverBarrier(fn *ssa.Function) (bool, string) {
 	ok := false
 	eachInstr(fn, func(in ssa.Instruction) {
@@ -36,11 +37,48 @@ func hasRecoverBarrier(fn *ssa.Function) (bool, string) {
 		if !isD || in.Block() != fn.Blocks[0] {
 			return
 		}
-		mc, isMC := d.Call.Value.(*ssa.MakeClosure)
-		if !isMC {
+		var cl *ssa.Function
+		// the cell the deferred function writes the error through: a captured variable (closure) or a *error parameter
+		// bound, at the defer, to fn's own error result (a named function deferred directly)
+		isErrCell := func(v ssa.Value) bool {
+			fv, isFV := v.(*ssa.FreeVar)
+			return isFV && fv.Type().String() == "*error"
+		}
+		if mc, isMC := d.Call.Value.(*ssa.MakeClosure); isMC {
+			cl = mc.Fn.(*ssa.Function)
+		} else if g := d.Call.StaticCallee(); g != nil && len(g.Blocks) > 0 && g.Pkg == fn.Pkg && len(g.FreeVars) == 0 {
+			cl = g
+			errParam := -1
+			for i, a := range d.Call.Args {
+				al, isAl := a.(*ssa.Alloc)
+				if !isAl || al.Type().String() != "*error" {
+					continue
+				}
+				// the cell is fn's error result: every return yields its content as the last result
+				isResult := true
+				for _, b := range fn.Blocks {
+					for _, ri := range b.Instrs {
+						if r, isR := ri.(*ssa.Return); isR {
+							last := len(r.Results) - 1
+							u, isU := r.Results[last].(*ssa.UnOp)
+							if last < 0 || !isU || u.Op != token.MUL || u.X != ssa.Value(al) {
+								isResult = false
+							}
+						}
+					}
+				}
+				if isResult {
+					errParam = i
+				}
+			}
+			if errParam < 0 {
+				return
+			}
+			prm := g.Params[errParam]
+			isErrCell = func(v ssa.Value) bool { return v == ssa.Value(prm) }
+		} else {
 			return
 		}
-		cl := mc.Fn.(*ssa.Function)
 		var rec *ssa.Call
 		eachInstr(cl, func(ci ssa.Instruction) {
 			if call, isC := ci.(*ssa.Call); isC && calleeOf(&call.Call).Builtin == "recover" {
@@ -57,8 +95,7 @@ func hasRecoverBarrier(fn *ssa.Function) (bool, string) {
 			if !isS {
 				return
 			}
-			fv, isFV := st.Addr.(*ssa.FreeVar)
-			if !isFV || fv.Type().String() != "*error" {
+			if !isErrCell(st.Addr) {
 				return
 			}
 			if nilErr, _ := allOrigins(st.Val, isConstNilOrigin); nilErr {
@@ -267,6 +304,34 @@ func checkC11(c *Ctx, w *World) {
 			selfCalls = append(selfCalls, call)
 		}
 	})
+	// the traversal's current value: the parameter after the pointer/interface indirection (a merge of val and val.Elem())
+	// whose kind the function tests
+	var curVals []ssa.Value
+	eachInstr(kfm, func(in ssa.Instruction) {
+		call, ok := staticCallNamed(valueOf(in), "reflect.(Value).Kind")
+		if !ok {
+			return
+		}
+		v := call.Call.Args[0]
+		for _, have := range curVals {
+			if have == v {
+				return
+			}
+		}
+		sawParam, sawElem := false, false
+		for _, o := range origins(v) {
+			if o.Val == ssa.Value(kfm.Params[0]) {
+				sawParam = true
+			} else if e, isE := staticCallNamed(o.Val, "reflect.(Value).Elem"); isE && e.Call.Args[0] == ssa.Value(kfm.Params[0]) {
+				sawElem = true
+			} else {
+				return
+			}
+		}
+		if sawParam && sawElem {
+			curVals = append(curVals, v)
+		}
+	})
 	for i, vr := range cs.VirtualReturns() {
 		// (merged single-exit code is split per incoming edge: each virtual return has concrete result values)
 		r := struct {
@@ -324,17 +389,13 @@ func checkC11(c *Ctx, w *World) {
 			for v := range byVal {
 				_ = v
 			}
-			for _, fnv := range kfm.Blocks {
-				for _, in := range fnv.Instrs {
-					if ph, ok := in.(*ssa.Phi); ok && ph.Comment == "val" {
-						if endBad {
-							imp, _ := cs.Implies(vrCond, cs.Not(strKind(ph)))
-							good = good || imp
-						} else {
-							imp, _ := cs.Implies(vrCond, cs.And(cs.Not(cs.Atom("atEnd")), cs.Not(structKind(ph))))
-							good = good || imp
-						}
-					}
+			for _, cur := range curVals {
+				if endBad {
+					imp, _ := cs.Implies(vrCond, cs.Not(strKind(cur)))
+					good = good || imp
+				} else {
+					imp, _ := cs.Implies(vrCond, cs.And(cs.Not(cs.Atom("atEnd")), cs.Not(structKind(cur))))
+					good = good || imp
 				}
 			}
 			c.check(good, "C11.errors", construct, p.ipos(r.Return), "a non-nil error is returned exactly on a kind failure (end of path and not a string, or inside the path and not a struct)", "an error return is not tied to the kind failure it reports")
@@ -366,12 +427,21 @@ func checkC11(c *Ctx, w *World) {
 		pathOK := sc.Call.Args[1] == ssa.Value(kfm.Params[1])
 		// receiver: FieldByName(cur, Title(path[start])) or Index(that, i)
 		argOK, what := false, ""
-		if fb, ok := staticCallNamed(sc.Call.Args[0], "reflect.(Value).FieldByName"); ok {
+		recvArg := sc.Call.Args[0]
+		if rs := cs.ResolveUnder(recvArg, cs.Reach(sc)); len(rs) == 1 {
+			// (a merged value — `v, err := helper(); if err != nil { return }` — has one concrete origin where the call is reached)
+			recvArg = rs[0]
+		}
+		if fb, ok := staticCallNamed(recvArg, "reflect.(Value).FieldByName"); ok {
 			argOK, what = fieldByPathSegment(fb, kfm), "the field named by the current path segment"
 			imp, _ := cs.Implies(cs.Reach(sc), cs.Not(kindIn(fb, []string{"Slice"})))
 			argOK = argOK && imp
-		} else if ix, ok := staticCallNamed(sc.Call.Args[0], "reflect.(Value).Index"); ok {
-			if fb, ok := staticCallNamed(ix.Call.Args[0], "reflect.(Value).FieldByName"); ok {
+		} else if ix, ok := staticCallNamed(recvArg, "reflect.(Value).Index"); ok {
+			ixRecv := ix.Call.Args[0]
+			if rs := cs.ResolveUnder(ixRecv, cs.Reach(sc)); len(rs) == 1 {
+				ixRecv = rs[0]
+			}
+			if fb, ok := staticCallNamed(ixRecv, "reflect.(Value).FieldByName"); ok {
 				argOK, what = fieldByPathSegment(fb, kfm), "each element of the repeated field named by the current path segment"
 			}
 		}
